@@ -188,7 +188,21 @@ type module interface {
 	probe(res string) []hx.M
 }
 
+// scnRes: the resources of the running scenario when its "new" record names them ("res": large-list scenarios use up
+// to five), nil = the module's own
+var scnRes []string
+
+func ressOf(m module) []string {
+	if scnRes != nil {
+		return scnRes
+	}
+	return m.resources()
+}
+
 func grouped(ress []string) map[string][]el {
+	if scnRes != nil {
+		ress = scnRes
+	}
 	m := map[string][]el{}
 	for _, r := range ress {
 		m[r] = []el{}
@@ -1416,7 +1430,12 @@ func main() {
 				}
 			}
 			dead = false
-			params, sweep = nil, nil
+			params, sweep, scnRes = nil, nil, nil
+			if l, ok := s["res"].([]interface{}); ok && len(l) > 0 {
+				for _, x := range l {
+					scnRes = append(scnRes, x.(string))
+				}
+			}
 			if ps, ok := s["params"].(map[string]interface{}); ok { // a parameter-sweep scenario
 				params = map[string]prec{}
 				for k, x := range ps {
@@ -1445,7 +1464,7 @@ func main() {
 			}
 			table = scenarioProbeTable(m)
 			rec := hx.M{"op": "new", "tr": tr, "mod": hx.Str(s, "mod"), "perres": perRes, "rejects": rejects, "ordered": ordered,
-				"invalid": []string{"I1", "I2", "I3", "Nil"}, "res": m.resources(), "probes": table, "near": near, "var": varn}
+				"invalid": []string{"I1", "I2", "I3", "Nil"}, "res": ressOf(m), "probes": table, "near": near, "var": varn}
 			if params != nil {
 				rec["params"] = s["params"] // the records the rules are built from, as given
 			}
@@ -1494,7 +1513,7 @@ func main() {
 					_, _, _, resGetter := m.desc()
 					if resGetter {
 						rep := hx.M{}
-						for _, r := range m.resources() {
+						for _, r := range ressOf(m) {
 							rep[r] = pairs(m.getRes(r))
 						}
 						rec["rep"] = rep
@@ -1502,7 +1521,7 @@ func main() {
 					for k, v := range m.getAll() {
 						all[k] = pairs(v)
 					}
-					for _, r := range m.resources() {
+					for _, r := range ressOf(m) {
 						if params != nil { // parameter sweep: the probes the scenario lists
 							probes = append(probes, sweepProbes(hx.Str(scn0, "mod"), r)...)
 						} else {
@@ -1513,7 +1532,7 @@ func main() {
 			}
 			if panicked {
 				dead = true
-				for _, r := range m.resources() {
+				for _, r := range ressOf(m) {
 					all[r] = [][]string{}
 				}
 			}
